@@ -35,6 +35,9 @@ CHECKS = {
  "C10": (MC, "TLC: GenCalc generator + Calc.tla C-grammar evaluator; replay of constant expressions in five constant positions into the real compiler", "6.C10",
          "GenCalc.tla enumerates token strings (all ordered pairs of the 17 binary operators over six literal triples, both parenthesisations, unary operators in every operand position, chains, nested ?:, hex/octal/character literals, overflow and division-by-zero edges) with the value Calc.tla assigns; each is compiled in initialiser, array size, array element, aligned() and asm size position. Values that fit must be exact; division by zero and >31-bit values must be errors; never a crash.",
          "Trusted: Calc.tla (self-tested). >> of negatives and shift counts >= 16 are not decided; 17..31-bit values may be rejected or exact."),
+ "C11": (MC, "TLC: GenDecor generator with Lexer.tla neutrality invariant; plain vs decorated compilation compared, differences decided by Refine.tla on M6502", "6.C11",
+         "GenDecor.tla enumerates (program, gap between two adjacent tokens, decoration) over 21 decorations (spaces, tabs, newlines, CR-LF, splices, block and line comments containing quotes, //, /*, directives, URLs) and checks with the reference scanner of Lexer.tla that each is token-neutral; plain and decorated programs (corpus: GenProg samples and the repository's own test inputs) are compiled at -O0/-O1, and plain programs with --insert-code / -W all: declared variables, functions and emitted instruction lines must be equal; where emitted text differs, both codes are executed by TLC on M6502.",
+         "Trusted: token splitter choosing the gaps; gaps inside directive lines are not decorated."),
  "C12": (MC, "TLC: GenGraph generator + CallGraph.tla predicates (work-list reachability) over the published tree / in-use set / emitted JSRs", "6.C12",
          "GenGraph.tla enumerates acyclic call graphs over main,f1,f2,f3 with every call in a syntactic position (statement, condition, argument, loop body, return, ternary, switch case) and attributes (inline subsets, interrupt handler, unused function, prototypes first); CallGraph.tla checks: every source call is in the tree, every emitted JSR is reachable through it, in-use = Reach(tree, main + interrupts) exactly and covers the source-reachable set.",
          "Trusted: driver's rendering of call sites; one site per (caller, callee)."),
